@@ -76,6 +76,7 @@ type c27OSeg struct {
 	HdrDur   int64      `json:"hdr_dur"` // mvhd duration in ms
 	InitLen  int        `json:"init_len"`
 	Parts    []c27OPart `json:"parts"`
+	Err      string     `json:"unreadable,omitempty"` // the file could not be read back: rendered as segment number -1
 }
 
 type c27Obs struct {
@@ -118,7 +119,7 @@ func c27Feed(dir string, s *c27Stream) (*c27Obs, error) {
 	for _, p := range created {
 		seg, err := c27ReadSeg(p, true)
 		if err != nil {
-			return nil, fmt.Errorf("%s: %w", p, err)
+			seg = &c27OSeg{Path: filepath.Base(p), Err: err.Error()}
 		}
 		obs.Segs = append(obs.Segs, *seg)
 	}
@@ -406,6 +407,9 @@ func c27CoqObs(o *c27Obs) string {
 			})
 			return cqPair(cqZ(int64(p.Seq)), trs)
 		})
+		if g.Err != "" {
+			return "(OSeg (-1) 0 0 0 [])"
+		}
 		return cqApp("OSeg", cqU(g.Num), cqZ(g.StartDTS), cqZ(g.StartNTP), cqZ(g.HdrDur), parts)
 	})
 	return cqApp("MkObs", cqListOf(o.Outcomes, func(x int) string { return cqZ(int64(x)) }), segs,
